@@ -63,12 +63,28 @@ def r2(ctx):
     prog = ctx.prog
     bd = prog.body("OutstationSession::get_response_iin")
     sym = ctx.sym(bd)
-    ors = call_sites(bd, r"BitOrAssign.*::bitor_assign$")
+    # `iin |= X` and `acc | X`: with helpers that build part of the IIN (inlined here when new) both forms occur
+    ors = call_sites(bd, r"BitOrAssign.*::bitor_assign$|BitOr.*::bitor$")
     seen = set()
+
+    def is_acc(x):
+        """An accumulator handed on: Iin::default(), possibly OR-ed into already (each of those ORs is a site of its own)."""
+        if x[0] == "mutated":
+            x = x[1]
+        if x[0] == "phi":
+            return all(is_acc(a) for a in x[1])
+        if x[0] == "call" and re.search(r"Default.*::default$", x[1] or ""):
+            return True
+        if x[0] == "call" and re.search(r"BitOr.*::bitor$", x[1] or "") and len(x[2]) == 2:
+            return is_acc(x[2][0]) and (is_acc(x[2][1]) or any(mentions_constdef(x[2][1], rx) for rx, _, _ in SOURCES))
+        return False
     for b in ors:
         e = sym.call_expr(b.term)
         arg = e[2][1]
         matched = False
+        if is_acc(arg):
+            ctx.check(not ctx.guards_at(bd, b.idx), "iin:partial", "a partial IIN built by a helper is merged unconditionally", bd.where(b.idx))
+            continue
         for rx, pred, label in SOURCES:
             if mentions_constdef(arg, rx):
                 matched = True
